@@ -147,6 +147,15 @@ def has_quant(f):
     return r
 
 
+def flatten_and(g):
+    if z3.is_and(g):
+        out = []
+        for ch in g.children():
+            out.extend(flatten_and(ch))
+        return out
+    return [g]
+
+
 class Executor:
     def __init__(self, contracts, lib, prop="C??", cfg=None):
         self.contracts = contracts   # qual -> Contract
@@ -185,10 +194,12 @@ class Executor:
             goal = z3.BoolVal(True)
         if goal is False:
             goal = z3.BoolVal(False)
-        o = Obligation(name, list(st.pc), goal, kind, line, note)
-        o.contract = getattr(self, "current", None)
-        o.inputs = getattr(self, "input_terms", None)
-        self.obligs.append(o)
+        goals = flatten_and(goal)
+        for gi, g in enumerate(goals):
+            nm = name if len(goals) == 1 else (name.split("@")[0] + f".c{gi}" + ("@" + name.split("@")[1] if "@" in name else ""))
+            o = Obligation(nm, list(st.pc), g, kind, line, note if len(goals) == 1 else f"{note} [conjunct {gi}: {str(g)[:120]}]")
+            o.contract = getattr(self, "current", None)
+            self.obligs.append(o)
 
     def decide(self, st, cond):
         """Return a python bool for a truth value.  Symbolic conditions are resolved by the path's decision
@@ -674,11 +685,17 @@ class Executor:
             base = self.unwrap_opt(base, st, "subscript")
         if hasattr(base, "getitem"):
             return base.getitem(self, st, idx)
+        if isinstance(base, Obj) and base.cls.startswith("agilerl"):
+            r = front.find_method(base.cls, "__getitem__")
+            if r is not None:
+                return self.call_function(r[0], r[1], r[2], [base, idx], {}, st, self.top_frame, getattr(node, "lineno", "?"))
         if isinstance(base, Seq):
             if isinstance(idx, slice):
                 return self.seq_slice(base, idx, st)
             i = z3ify(idx)
             n = base.len
+            if getattr(self, "in_spec", 0):
+                return base.get(i)      # specification terms are total (no IndexError inside contracts)
             inb = self.in_bounds(i, n)
             # negative index support for concrete negatives
             if isinstance(idx, int) and idx < 0:
@@ -1159,8 +1176,10 @@ class BoundBuiltin:
                 b.arr = z3.Store(b.arr, i, z3ify(args[0]))
                 b.len = z3.simplify(i + 1) if is_sym(i) else b.len + 1
                 return None
-            if n == "copy":
+            if n in ("copy", "clone"):
                 return Seq(b.len, b.arr, b.elem, b.label + ".copy", b.wrap)
+            if n in ("unsqueeze", "squeeze", "to", "detach", "cpu", "long", "float"):
+                return b
         if is_sym(b):
             if n == "item":
                 return b
